@@ -1,0 +1,57 @@
+//go:build verif
+
+// Contracts for the deductive verifier in /verif (govc). Comment-only: with the
+// verif tag off the compiler never sees this file, with it on it adds no code.
+package expand
+
+// ---- C20: arithmetic kernel against 64-bit two's-complement ----
+
+// pow64 is mathematical exponentiation (uninterpreted; defining equations are
+// given as assumptions where intPow is verified).
+//@ spec pow64(a int, b int) int
+
+//@ func oneIf
+//@ mode bv
+//@ props C20
+//@ ensures [one-iff] result == ite(b, 1, 0)
+
+// intPow is verified over mathematical integers: it only multiplies (a ring
+// homomorphism Z -> Z/2^64, so the wrapped machine result is the mathematical
+// one modulo 2^64) and halves the non-negative exponent.
+//@ func intPow
+//@ mode math
+//@ props C20
+//@ requires b >= 0
+//@ assume [pow-zero] forall(x, forall(n, implies(n == 0, pow64(x, n) == 1)))
+//@ assume [pow-even] forall(x, forall(m, forall(y, forall(n, implies(m >= 0 && m == 2*n && y == x*x, pow64(x, m) == pow64(y, n))))))
+//@ assume [pow-odd] forall(x, forall(m, forall(y, forall(n, implies(m >= 0 && m == 2*n+1 && y == x*x, pow64(x, m) == x * pow64(y, n))))))
+//@ ensures [is-pow] result == pow64(old(a), old(b))
+//@ loop 1 invariant [acc] b >= 0 && p * pow64(a, b) == pow64(old(a), old(b))
+//@ loop 1 decreases b
+
+//@ func binArit
+//@ mode bv
+//@ props C20
+//@ returns (r, err)
+//@ ensures [add] implies(op == syntax.Add, err == nil && r == x + y)
+//@ ensures [sub] implies(op == syntax.Sub, err == nil && r == x - y)
+//@ ensures [mul] implies(op == syntax.Mul, err == nil && r == x * y)
+//@ ensures [quo] implies(op == syntax.Quo, iff(err != nil, y == 0) && implies(y != 0, r == x / y))
+//@ ensures [rem] implies(op == syntax.Rem, iff(err != nil, y == 0) && implies(y != 0, r == x % y))
+//@ ensures [pow] implies(op == syntax.Pow, iff(err != nil, y < 0) && implies(y >= 0, r == pow64(x, y)))
+//@ ensures [eql] implies(op == syntax.Eql, err == nil && r == ite(x == y, 1, 0))
+//@ ensures [neq] implies(op == syntax.Neq, err == nil && r == ite(x == y, 0, 1))
+//@ ensures [lss] implies(op == syntax.Lss, err == nil && r == ite(x < y, 1, 0))
+//@ ensures [gtr] implies(op == syntax.Gtr, err == nil && r == ite(y < x, 1, 0))
+//@ ensures [leq] implies(op == syntax.Leq, err == nil && r == ite(y < x, 0, 1))
+//@ ensures [geq] implies(op == syntax.Geq, err == nil && r == ite(x < y, 0, 1))
+//@ ensures [and] implies(op == syntax.And, err == nil && r == x & y)
+//@ ensures [or] implies(op == syntax.Or, err == nil && r == x | y)
+//@ ensures [xor] implies(op == syntax.Xor, err == nil && r == x ^ y)
+//@ ensures [shl] implies(op == syntax.Shl && 0 <= y && y <= 63, err == nil && r == x << uint(y))
+//@ ensures [shr] implies(op == syntax.Shr && 0 <= y && y <= 63, err == nil && r == x >> uint(y))
+//@ ensures [comma] implies(op == syntax.Comma, err == nil && r == y)
+//@ ensures [unknown-op-is-error] implies(op != syntax.Add && op != syntax.Sub && op != syntax.Mul && op != syntax.Quo &&
+//@     op != syntax.Rem && op != syntax.Pow && op != syntax.Eql && op != syntax.Neq && op != syntax.Lss && op != syntax.Gtr &&
+//@     op != syntax.Leq && op != syntax.Geq && op != syntax.And && op != syntax.Or && op != syntax.Xor && op != syntax.Shl &&
+//@     op != syntax.Shr && op != syntax.Comma, err != nil)
